@@ -48,7 +48,6 @@ func (Engine) Generate(prop string, r *kit.Rand, tier string) *kit.Scenario[Conf
 	sc.Config.N = r.Range(2, 4)
 	sc.Config.Jitter = r.Uint64()
 	n := r.Range(4, 60)
-	huge := []uint64{0, 1, 2, 127, 252, 253, 254, 255, 256, 65535, 65536, 1 << 31, 1<<32 - 1, 1 << 32, 1<<63 - 1, 1 << 63, 1<<64 - 1}
 	for i := 0; i < n; i++ {
 		switch r.Weighted([]int{14, 10, 30, 4, 4, 25}) {
 		case 0:
@@ -63,20 +62,7 @@ func (Engine) Generate(prop string, r *kit.Rand, tier string) *kit.Scenario[Conf
 			sc.Ops = append(sc.Ops, Op{Op: "dup", K: r.Intn(8)})
 		case 5:
 			o := Op{Op: "corrupt", K: r.Intn(8)}
-			switch r.Weighted([]int{4, 5, 2, 3, 3, 2}) {
-			case 0:
-				o.Mut, o.At, o.Val = "len", r.Intn(64), kit.Pick(r, huge)
-			case 1:
-				o.Mut, o.At, o.Val = "lenfix", r.Intn(64), kit.Pick(r, huge)
-			case 2:
-				o.Mut, o.At = "trunc", r.Intn(600)
-			case 3:
-				o.Mut, o.At, o.Val = "flip", r.Intn(600), uint64(1+r.Intn(255))
-			case 4:
-				o.Mut, o.At, o.Val = "type", r.Intn(64), uint64(r.Intn(256))
-			case 5:
-				o.Mut, o.At, o.Val = "insert", r.Intn(600), uint64(r.Intn(1<<16))
-			}
+			o.Mut, o.At, o.Val = facesim.GenMutFix(r, 64, 600)
 			sc.Ops = append(sc.Ops, o, Op{Op: "deliver", K: o.K})
 		}
 	}
